@@ -13,11 +13,15 @@ PKGS=$(grep '^+++ ' $OUT/patch.diff | sed 's#^+++ [ab]/##; s#/[^/]*$##' | sort -
 echo "touched packages: $PKGS"
 go build $PKGS || { echo "RESULT does-not-build"; exit 2; }
 go test -vet=off -count=1 $PKGS 2>&1 | grep -v "no test files" | tail -8
-go test -vet=off -count=1 $PKGS >/dev/null 2>&1 && echo "existing-tests: pass" || echo "existing-tests: FAIL"
+# failing existing tests with the change vs without it (some tests fail on the unchanged tree too)
+F1=$(go test -vet=off -count=1 $PKGS 2>&1 | grep -- "^--- FAIL" | sort -u)
+F0=$(cd $W-clean && go test -vet=off -count=1 $PKGS 2>&1 | grep -- "^--- FAIL" | sed 's/ (.*//' | sort -u)
+F1=$(echo "$F1" | sed 's/ (.*//')
+if [ "$F1" == "$F0" ] || [ -z "$F1" ]; then echo "existing-tests: pass"; [ -n "$F0" ] && echo "  (failing on the unchanged tree too: $F0)"; else echo "existing-tests: FAIL ($F1) vs unchanged ($F0)"; fi
 DP=$(cat $OUT/demo_path.txt | tr -d '\n ')
 cp $OUT/zz_seed_demo_test.go $W/$DP/ ; cp $OUT/zz_seed_demo_test.go $W-clean/$DP/
-(cd $W && go test -vet=off -count=1 ./$DP/ -run 'Seed|seed|Demo|ZZ|Zz' 2>&1 | tail -3; go test -vet=off -count=1 ./$DP/ >/dev/null 2>&1 && echo "demo-with-change: PASS(unexpected)" || echo "demo-with-change: fail(expected)")
-(cd $W-clean && go test -vet=off -count=1 ./$DP/ >/dev/null 2>&1 && echo "demo-without-change: pass(expected)" || echo "demo-without-change: FAIL(unexpected)")
+(cd $W && go test -vet=off -count=1 ./$DP/ -run 'Seed|seed|Demo|ZZ|Zz' 2>&1 | tail -3; go test -vet=off -count=1 ./$DP/ -run 'Seed|seed|Demo|ZZ|Zz' >/dev/null 2>&1 && echo "demo-with-change: PASS(unexpected)" || echo "demo-with-change: fail(expected)")
+(cd $W-clean && go test -vet=off -count=1 ./$DP/ -run 'Seed|seed|Demo|ZZ|Zz' >/dev/null 2>&1 && echo "demo-without-change: pass(expected)" || echo "demo-without-change: FAIL(unexpected)")
 rm -f $W/$DP/zz_seed_demo_test.go
 rm -rf $W-clean
 cd /verif
